@@ -286,7 +286,8 @@ def run(plan):
                 check_retry_contract(kind, evs, r, o, kind in ("timing", "drop_all") and api == "send", t_start)
                 if not res.ok:
                     return
-                if kind in ("timing", "drop_all") and api == "refresh":
+                slow_ok = kind == "slow_connect" and fx.get("conn") and fx["conn"][0][1] < 4.9 and fx.get("net")
+                if (kind in ("timing", "drop_all") or slow_ok) and api == "refresh":
                     # device-level: no response -> offline, response -> online
                     tx = [e for e in evs if e["kind"] == "v2_req"]
                     if tx:
@@ -457,7 +458,7 @@ def gen_fault(rng, version, kind=None, first=True):
         fx["conn"] = [["accept", rng.choice([0.5, 2.5, 4.5, 4.99, 5.5, 6.0, 9.0])]]
         if rng.random() < 0.6:
             n = 3 if fx["api"] != "send" else fx["r"]
-            fx["net"] = [rng.choice([{"drop": True}, {"lat": 1.0}, {}]) for _ in range(n)]
+            fx["net"] = [rng.choice([{"drop": True}, {"drop": True}, {"lat": 1.0}, {"lat": 1.9}, {}]) for _ in range(n)]
     elif kind == "accept_close":
         fx["pre_close"] = True
         fx["conn"] = [["accept_close", E]]
@@ -548,6 +549,20 @@ def space(tier):
         p["settle"] = 8.0        # late replies must have drained: the recovery exchange starts with a handshake
         return p
     sp.add("timing_key_lifetime_straddle", 1500 if tier == "quick" else 60_000, timing_expiry)
+
+    def slow_reconnect(j, rng):
+        # the unit hung up; the new connection is slow to come up; then the first transmissions are lost and a late one
+        # is answered inside its window (device level: the poll must still find the unit online)
+        p = gen_plan(j, rng, ["slow_connect"])
+        fx = p["faults"][0]
+        fx["api"] = "refresh"
+        fx["conn"] = [["accept", [0.5, 1.5, 2.5, 3.5, 4.5, 4.9][j % 6]]]
+        pats = [[{"drop": True}, {"drop": True}, {"lat": 1.0}], [{"drop": True}, {"drop": True}, {}], [{"drop": True}, {"lat": 1.9}, {}],
+                [{"drop": True}, {"drop": True}, {"lat": 1.9}], [{"lat": 1.9}, {}, {}], [{"drop": True}, {}, {}]]
+        fx["net"] = pats[(j // 6) % len(pats)]
+        p.pop("lifetime", None)
+        return p
+    sp.add("slow_reconnect_then_late_answer", 72 if tier == "quick" else 1440, slow_reconnect, exhaustive=True)
 
     def pair(j, rng):
         version = rng.choice([2, 3])
